@@ -6,6 +6,14 @@ set_option linter.unusedSimpArgs false
 set_option linter.unusedVariables false
 namespace Kopf.C20
 
+theorem upd_upd_sub_root {α : Type} (f : Task → α) (i : Nat) (v w : α) (q r : Root) :
+    upd (upd f (.sub i) v) (.root q) w (.root r) = upd f (.root q) w (.root r) := by
+  simp [upd]
+
+theorem upd_upd_root_sub {α : Type} (f : Task → α) (i j : Nat) (v w : α) (q : Root) :
+    upd (upd f (.sub i) v) (.root q) w (.sub j) = upd f (.sub i) v (.sub j) := by
+  simp [upd]
+
 set_option maxHeartbeats 8000000 in
 theorem InvD.pres_d2 {cfg : Cfg} {s s' : State} {l : Label} (hB : InvB s) (hC : InvC s)
     (hI : InvD cfg s) (hl : ∀ n, l ≠ .delay n) (hg : l.grpD = 2) (h : step cfg s l = some s') : InvD cfg s' := by
@@ -43,7 +51,8 @@ theorem InvD.pres_d2 {cfg : Cfg} {s s' : State} {l : Label} (hB : InvB s) (hC : 
     kind_startupCleanup_iff, kind_coreWatch_iff] at *)
   all_goals (try subst_vars)
   all_goals (try dsimp only)
-  all_goals (grind [upd, Root.kind, TS.active, TS.live, TS.ended, TS.isStopping, failTS, cancelSubs,
+  all_goals (try simp only [upd_upd_sub_root, upd_upd_root_sub])
+  all_goals (grind (splits := 30) [upd, Root.kind, TS.active, TS.live, TS.ended, TS.isStopping, failTS, cancelSubs,
     cancelRoots, Pend.ts, scBeforeCleanup, scLate, scEarly, stoppingPhase, G, grace])
 
 end Kopf.C20
